@@ -606,7 +606,7 @@ class HDF5DataFrame(DataFrame):
 
         fields_to_use = [self._columns[f] for f in field_name_to_use]
 
-        with open(filepath, 'w') as f:
+        with open(filepath, 'w', newline='', encoding='utf-8') as f:
             writer = csvlib.writer(f, delimiter=',',lineterminator='\n')
 
             # write header names
